@@ -23,6 +23,7 @@ func checkC13(p *Prog, res *Result, tier string) {
 	res.rule("C13-R4", "streamed batches name the receiver's read revision", 2)
 	res.rule("C13-R5", "adjusted borders stay contiguous: start(i) = end(i-1) of the adjusted slice, end not modified after propagation", 2)
 	res.rule("C13-R6", "each scan attempt resets the receiver; accumulating receivers implement their own reset", 3)
+	res.rule("C13-R8", "on the scan path the error of the engine iterator, of a partition worker and of the retry loop is returned (as is or wrapped) unless found nil or classified: a failed partition fails the read", 6)
 	res.rule("C13-R7", "engine partitions are clamped into the requested interval (C11-R7)", 3)
 
 	recvIface := p.namedType("pkg/backend/scanner", "resultReceiver")
@@ -485,6 +486,68 @@ func checkC13(p *Prog, res *Result, tier string) {
 
 	// ---- R7 ----
 	checkPartitionClamp(p, r, res, "C13-R7")
+	// ---- R8: no error is lost on the scan path ----
+	{
+		delM := map[*types.Func]bool{r.KVDel: true, r.KVDelCurrent: true, r.BWDel: true, r.BWDelCurrent: true}
+		// delete helpers of the compaction worker (they issue an engine delete, or only call such helpers and never
+		// advance an iterator): their results are the business of C07-R4, not of reads
+		deleting := map[*ssa.Function]bool{}
+		for iter := 0; iter < 5; iter++ {
+			for _, f := range p.AllFuncs {
+				if f.Pkg != sp || deleting[f] {
+					continue
+				}
+				direct, viaHelper, scans := false, false, false
+				var calls []ssa.CallInstruction
+				for _, g := range withAnon(f) {
+					calls = append(calls, callsIn(g)...)
+				}
+				for _, c := range calls {
+					if c.Common().IsInvoke() && delM[c.Common().Method] {
+						direct = true
+					}
+					if c.Common().IsInvoke() && (c.Common().Method == r.ItNext || c.Common().Method == r.KVIter) {
+						scans = true
+					}
+					if sc := c.Common().StaticCallee(); sc != nil && deleting[sc] {
+						viaHelper = true
+					}
+				}
+				if direct || (viaHelper && !scans) {
+					deleting[f] = true
+				}
+			}
+		}
+		inScope := func(f *ssa.Function) bool {
+			top := f
+			for top.Parent() != nil {
+				top = top.Parent()
+			}
+			return top.Pkg == sp && !deleting[top]
+		}
+		fallible := func(c ssa.CallInstruction) (string, bool) {
+			if c.Common().IsInvoke() {
+				switch c.Common().Method {
+				case r.KVIter, r.ItNext, r.KVGetPartitions, r.KVGetTSO, r.KVGet:
+					return "storage." + c.Common().Method.Name(), true
+				}
+				return "", false
+			}
+			sc := c.Common().StaticCallee()
+			if sc == nil {
+				return "", false
+			}
+			if sc.Pkg == sp && sc.Blocks != nil && !deleting[sc] {
+				return funcName(sc), true
+			}
+			if sc.Pkg != nil && strings.HasSuffix(sc.Pkg.Pkg.Path(), "util/wait") && strings.Contains(sc.Name(), "Backoff") {
+				return "wait." + sc.Name(), true
+			}
+			return "", false
+		}
+		checkErrorPreservation(p, res, "C13-R8", inScope, fallible, "a partition whose scan failed would be reported as complete: the read succeeds with keys missing")
+	}
+
 }
 
 func errorParamIndex(f *ssa.Function) int {
@@ -681,3 +744,4 @@ func crossesBackEdgeOnly(a, b ssa.Instruction) bool {
 	walk(pa.b, pa.i+1)
 	return !found
 }
+
